@@ -902,6 +902,22 @@ func genCase(t *rapid.T) Case {
 		mods = append(mods, m)
 		visible = append(visible, vis)
 	}
+	if g.Chance(1, 4, "renamedimport") {
+		// a module that knows the first one under another prefix than its own, and refines the default of an identityref
+		// leaf of one of its groupings: the default is written in this module's file, with this module's prefix for the
+		// module of the identity (or without one, for an identity of its own)
+		m0 := mods[0]
+		m0.Groupings = append(m0.Groupings, &sg.Grouping{Name: "zig", Kids: []*sg.Node{{Kind: "leaf", Name: "zil", Type: &sg.TypeSpec{Name: "identityref", Base: m0.Prefix + ":idbase-0"}},
+			{Kind: "leaf", Name: "zil2", Type: &sg.TypeSpec{Name: "identityref", Base: m0.Prefix + ":idbase-0"}}}})
+		// (the module also knows it under its own prefix, which the inlined form of the grouping's text is written with)
+		zb := &sg.Mod{Name: "zrb", Prefix: "zrb", Imports: []sg.Import{{Mod: m0.Name, Prefix: "zx"}, {Mod: m0.Name, Prefix: m0.Prefix}},
+			Identities: []*sg.Identity{{Name: "zown", Base: "zx:idbase-0"}},
+			Nodes: []*sg.Node{{Kind: "container", Name: "zrb-top", Kids: []*sg.Node{{Kind: "uses", Name: "zx:zig",
+				Refines: []sg.Refine{{Target: "zil", Stmts: []string{`default "zx:idder-0";`}}, {Target: "zil2", Stmts: []string{`default "zown";`}}}}}}}}
+		// (not as the last module: that one is the subject of the clash variants below)
+		last := mods[len(mods)-1]
+		mods = append(mods[:len(mods)-1:len(mods)-1], zb, last)
+	}
 	allMods := withSubs(mods, subs)
 	c := Case{Mods: allMods}
 	for _, m := range mods {
